@@ -625,6 +625,31 @@ pub fn gen(ctx: &Ctx) -> Vec<Value> {
             id(&mut out, json!({"seed": sub, "kind": "json", "value": value, "mutation": mutation}));
         }
     }
+    // 5. traced schemas through the JSON form: the type descriptions / covering samples / options / overwrites of the
+    // `tracety` suite (C08), plus sample collections that leave a position unseen (empty lists, `None` only)
+    let unseen = |a: Value, allow: bool| {
+        let mut o = json!({"allow_null_fields": allow, "allow_to_string": false, "coerce_numbers": false, "enums_without_data_as_strings": false,
+            "from_type_budget": 100, "guess_dates": false, "map_as_struct": true, "overwrites": [], "sequence_as_large_list": true,
+            "string_dictionary_encoding": false, "strings_as_large_utf8": true});
+        o["allow_null_fields"] = json!(allow);
+        json!({"seed": 0, "kind": "traced", "ty": Value::Null, "opts": o,
+               "samples": [{"k": "struct", "n": "R", "f": [["a", 0, a], ["b", 0, {"k": "i32", "v": 1}]]}]})
+    };
+    for allow in [true, false] {
+        id(&mut out, unseen(json!({"k": "seq", "v": []}), allow));
+        id(&mut out, unseen(json!({"k": "none"}), allow));
+        id(&mut out, unseen(json!({"k": "seq", "v": [{"k": "seq", "v": []}]}), allow));
+        id(&mut out, unseen(json!({"k": "map", "e": []}), allow));
+        id(&mut out, unseen(json!({"k": "tuple", "v": [{"k": "none"}, {"k": "str", "v": "x"}]}), allow));
+    }
+    let take = if ctx.thorough() { 6000 } else { 700 };
+    for c in crate::suites::tracety::gen(ctx).into_iter().filter(|c| matches!(c["kind"].as_str(), Some("random" | "zoo" | "mapkey"))).take(take) {
+        let mut opts = c["opts"].clone();
+        if c["overwrites"].as_array().map(|a| !a.is_empty()).unwrap_or(false) {
+            opts["overwrites"] = c["overwrites"].clone();
+        }
+        id(&mut out, json!({"seed": c["seed"], "kind": "traced", "ty": c["ty"], "opts": opts, "samples": c["samples"]}));
+    }
     // API coverage: the Strategy value on its own (fixed table)
     for t in STRATEGIES {
         let lower = t.to_lowercase();
@@ -1027,9 +1052,54 @@ fn exec_strategy(input: &Value, case: &mut Map<String, Value>) {
     }
 }
 
+/// a traced schema (`from_type::<DynRoot>` / `from_samples`) through the JSON form: the traced fields (read directly:
+/// `Vec::<marrow Field>::from_*` is the projection of the schema), what `to_value` writes, what `from_value` reads back,
+/// and `PartialEq` of the schema read back with the traced one
+fn exec_traced_case(input: &Value, case: &mut Map<String, Value>) {
+    use crate::suites::trace::build_opts;
+    use crate::suites::tracety::{with_type, DynRoot, SampleRows};
+    let e = |e: serde_arrow::Error| str_err(e.to_string());
+    let mut chars = Vec::new();
+    let mut through = |fields: Result<Vec<Field>, StrErr>, schema: Result<SerdeArrowSchema, StrErr>| -> Result<Value, StrErr> {
+        let fields = fields?;
+        let schema = schema?;
+        let fj = fields_json(&fields);
+        collect_tz_chars(&fj, &mut chars);
+        let json = serde_json::to_value(&schema).map_err(|e| str_err(e.to_string()))?;
+        let back = outcome::run(|| Vec::<Field>::from_value(&json).map(|fs| fields_json(&fs)));
+        let eq = SerdeArrowSchema::from_value(&json).map(|s| s == schema).ok();
+        let text = serde_json::to_string(&schema).ok().and_then(|t| serde_json::from_str::<SerdeArrowSchema>(&t).ok()).map(|s| s == schema);
+        Ok(json!({"fields": fj, "json": json, "back": back, "eq": eq, "text_eq": text}))
+    };
+    let opts = &input["opts"];
+    if !input["ty"].is_null() {
+        let r = with_type(&input["ty"], || {
+            outcome::run(|| {
+                through(
+                    build_opts(opts).map_err(e).and_then(|o| Vec::<Field>::from_type::<DynRoot>(o).map_err(e)),
+                    build_opts(opts).map_err(e).and_then(|o| SerdeArrowSchema::from_type::<DynRoot>(o).map_err(e)),
+                )
+            })
+        });
+        case.insert("type".into(), r);
+    }
+    let samples = input["samples"].as_array().cloned().unwrap_or_default();
+    if !samples.is_empty() {
+        let r = outcome::run(|| {
+            through(
+                build_opts(opts).map_err(e).and_then(|o| Vec::<Field>::from_samples(SampleRows(&samples), o).map_err(e)),
+                build_opts(opts).map_err(e).and_then(|o| SerdeArrowSchema::from_samples(SampleRows(&samples), o).map_err(e)),
+            )
+        });
+        case.insert("samples_out".into(), r);
+    }
+    case.insert("esc".into(), esc_table(&chars));
+}
+
 pub fn exec(input: &Value) -> Value {
     let mut case = input.as_object().cloned().unwrap_or_default();
     match input["kind"].as_str().unwrap_or("") {
+        "traced" => exec_traced_case(input, &mut case),
         "fields" => exec_fields(input, &mut case),
         "json" => exec_json(input, &mut case),
         "spell" => exec_spell(input, &mut case),
